@@ -1,8 +1,11 @@
+mod bench;
 mod broker;
 mod cfg;
 mod chooser;
 mod clock;
 mod convert;
+mod direct;
+mod direct2;
 mod explore;
 mod families;
 mod mqtt_ref;
